@@ -183,14 +183,14 @@ impl TermAppender {
 
             let mut offset = frame_offset + data_frame_header::LENGTH;
 
+            let ending_offset = offset + length;
             for buf in buffers.iter() {
-                let ending_offset = offset + length;
                 if offset >= ending_offset {
                     break;
                 }
-                offset += buf.capacity();
 
                 self.term_buffer.copy_from(offset, buf, 0, buf.capacity());
+                offset += buf.capacity();
             }
 
             let reserved_value = reserved_value_supplier(self.term_buffer, frame_offset, frame_length);
@@ -324,6 +324,9 @@ impl TermAppender {
             let mut remaining = length;
             let mut frame_offset = term_offset as i32;
             let mut current_buffer_offset = 0;
+            // the buffer cursor is carried across fragments
+            let mut buffers_iter = buffers.iter();
+            let mut curr_buffer = buffers_iter.next().expect("At least one buffer must be supplied");
 
             loop {
                 let bytes_to_write = std::cmp::min(remaining, max_payload_length);
@@ -334,9 +337,6 @@ impl TermAppender {
 
                 let mut bytes_written = 0;
                 let mut payload_offset = frame_offset + data_frame_header::LENGTH;
-
-                let mut buffers_iter = buffers.iter();
-                let mut curr_buffer = buffers_iter.next().expect("At least one buffer must be supplied");
 
                 loop {
                     let current_buffer_remaining = curr_buffer.capacity() - current_buffer_offset;
